@@ -17,7 +17,7 @@ from symx.formula import And, Or, Not, Implies, Sum, b2i, to_z3
 from symx.harness import Shape, Ob, Ctx, run_property, quiet
 from checks.common import make_task, new_problem, task_must, task_valid
 from checks.c09 import declare_buffer
-from checks.c05 import buffer_witness
+from checks.common import buffer_witness
 
 PROP = "C06"
 KINDS = {"zero": dict(kind="zero"), "fixed": dict(kind="fixed"), "var": dict(kind="var", vmin=True, vmax=True)}
